@@ -21,6 +21,15 @@ pub struct Step<'a> {
     /// the candidate list as the getters report it before / after (None = no list open), see `CandView`
     pub cand_pre: Option<&'a CandView>,
     pub cand_post: Option<&'a CandView>,
+    /// C01: how the operation ended: "ok" | "panic" | "hang" (for "panic"/"hang" `post`/`dict_post` repeat the pre-state and `ret` is "panic")
+    pub outcome: &'a str,
+    /// C01: `Some(description)` iff in the PRE-state some buffered syllable has no one-syllable word under a
+    /// lookup strategy in force (the option's, the engine's own, an open phrase selector's)
+    pub no_word_pre: Option<&'a str>,
+    /// C01: the same predicate on the POST-state (only computed after a successful operation)
+    pub no_word_post: Option<&'a str>,
+    /// C01: the first read-only accessor that panicked / hung on the post-state: (name, "panic" | "hang")
+    pub getter_fail: Option<(&'a str, &'a str)>,
 }
 
 impl Step<'_> {
